@@ -42,7 +42,8 @@
    (C14b_decimal / C14b_email / C14b_sentence over the families of
    Spec/ShapeSpec.v, which contain the harness streams shape-email /
    shape-decimal / shape-sentence).
-   NOT covered: inputs with tabs, doubled, leading or trailing spaces. *)
+   Inputs with tabs, NBSP, NUL, doubled, leading or trailing white space: Properties/C14c.v
+   (C14c_benign_any_whitespace). *)
 From Coq Require Import List ZArith String Bool.
 From Coq.Strings Require Import Byte.
 From LI Require Import Prelude Base SqliLex SqliFold Spec.BenignSpec Proofs.BenignLex Proofs.BenignCheck.
